@@ -200,7 +200,9 @@ func (e *Exec) candidates(st *State, sks []*Term) []*Term {
 					continue
 				}
 				if t, ok := lc.v.(*Term); ok && !t.IsLit() {
-					add(t)
+					if pt, isP := a.Type().Underlying().(*types.Pointer); isP && isIntLike(pt.Elem()) {
+						add(t)
+					}
 					if t.S == SSlice {
 						add(SlLen(t))
 						add(Sub(SlLen(t), IntLit(1)))
